@@ -1396,13 +1396,20 @@ class Session(AbstractSession):
             left_f = val.field_from_parameter(self, 'left_on', left_on)
             right_f = val.field_from_parameter(self, 'right_on', right_on)
             map_f = val.field_from_parameter(self, 'left_to_right_map', left_to_right_map)
+            # the marker of unmatched rows must fit the map field's dtype: in an int32 map field 1 << 62 is
+            # stored as 0, and every unmatched row then receives the payload of right row 0
+            map_dtype = np.dtype(map_f.data.dtype)
+            if map_dtype.kind in 'iu' and np.iinfo(map_dtype).max < ops.INVALID_INDEX:
+                invalid = int(np.iinfo(map_dtype).max)
+            else:
+                invalid = ops.INVALID_INDEX
         if left_unique == False:
             if right_unique == False:
                 raise ValueError("Right key must not have duplicates")
             else:
                 if streamable:
                     ops.generate_ordered_map_to_left_right_unique_streamed(
-                        left_f, right_f, map_f, ops.INVALID_INDEX, rdtype=map_f.data.dtype)
+                        left_f, right_f, map_f, invalid, rdtype=map_f.data.dtype)
                     result = left_to_right_map
                 else:
                     left_data = val.array_from_parameter(self, "left_on", left_on)
@@ -1418,7 +1425,7 @@ class Session(AbstractSession):
             else:
                 if streamable:
                     ops.generate_ordered_map_to_left_both_unique_streamed(
-                        left_f, right_f, map_f, ops.INVALID_INDEX, rdtype=map_f.data.dtype)
+                        left_f, right_f, map_f, invalid, rdtype=map_f.data.dtype)
                     result = left_to_right_map
                 else:
                     left_data = val.array_from_parameter(self, "left_on", left_on)
@@ -1429,7 +1436,7 @@ class Session(AbstractSession):
 
         if streamable:
             self._streaming_map_fields(result, right_field_sources, left_field_sinks,
-                                       invalid=ops.INVALID_INDEX)
+                                       invalid=invalid)
             return None
         else:
             rtn_left_sinks = self._map_fields(result, right_field_sources, left_field_sinks,
